@@ -7,6 +7,7 @@ import (
 	"github.com/cosmos/cosmos-proto/internal/zzverif/enum"
 	"github.com/cosmos/cosmos-proto/internal/zzverif/hz"
 	"google.golang.org/protobuf/proto"
+	"google.golang.org/protobuf/reflect/protoreflect"
 	"google.golang.org/protobuf/runtime/protoiface"
 )
 
@@ -34,6 +35,9 @@ func evalC04(h *hz.H, sp *enum.Space, c enum.Case, b bounds, replayDet *bool, au
 	d, g, _, ok := build(h, sp, c)
 	if !ok {
 		return
+	}
+	if len(c) <= 2 {
+		nilArtefacts(h, sp, c, b, d)
 	}
 	for _, det := range modes(replayDet) {
 		mo := proto.MarshalOptions{Deterministic: det}
@@ -130,6 +134,52 @@ func evalC04(h *hz.H, sp *enum.Space, c enum.Case, b bounds, replayDet *bool, au
 		}
 		if h.WantSample() && len(c) > 0 {
 			h.Sample(map[string]interface{}{"value": sp.Label(c), "deterministic": det, "size": sz, "prefixes": names})
+		}
+	}
+}
+
+// nilArtefacts: "nil and empty nested values" - a nil message as list element / map value next to whatever
+// the value already holds. The reference is protobuf-go's table-driven codec over the same struct.
+func nilArtefacts(h *hz.H, sp *enum.Space, c enum.Case, b bounds, d proto.Message) {
+	fs := sp.MD.Fields()
+	for i := 0; i < fs.Len(); i++ {
+		fd := fs.Get(i)
+		isMsgList := fd.IsList() && fd.Kind() == protoreflect.MessageKind
+		isMsgMap := fd.IsMap() && fd.MapValue().Kind() == protoreflect.MessageKind
+		if !isMsgList && !isMsgMap {
+			continue
+		}
+		g := enum.BuildGo(d.ProtoReflect())
+		if !enum.InjectNil(g, int(fd.Number())) {
+			continue
+		}
+		var ref []byte
+		if p := hz.Catch(func() {
+			mo, err := proto.MarshalOptions{Deterministic: true, AllowPartial: true}.MarshalState(protoiface.MarshalInput{Message: enum.Slow(g)})
+			if err != nil {
+				panic(err)
+			}
+			ref = mo.Buf
+		}); p != nil {
+			continue // the reference does not accept this struct: not judged
+		}
+		vc := mkCase(sp, c, b, true, fmt.Sprintf("nil-artefact:%d", fd.Number()))
+		h.Eval(true, hz.HashBytes([]byte("C04nil"), []byte(sp.MD.FullName()), []byte(fd.Name()), ref))
+		for _, det := range []bool{true, false} {
+			var sz int
+			var enc []byte
+			var err error
+			if p := hz.Catch(func() {
+				sz = proto.MarshalOptions{Deterministic: det}.Size(g)
+				enc, err = proto.MarshalOptions{Deterministic: det}.Marshal(g)
+			}); p != nil || err != nil {
+				h.Violate(caseKey("C04", "nil-element/panic", sp, c)+"#"+shapeOf(fd), fmt.Sprintf("Size/Marshal(det=%v) of %s plus a nil message in field %s: panic=%v err=%v (the reference codec encodes the same struct as %x)", det, sp.Label(c), fd.Name(), p, err, clip(ref)), vc)
+				break
+			}
+			if sz != len(ref) || len(enc) != len(ref) || det && !bytes.Equal(enc, ref) {
+				h.Violate(caseKey("C04", "nil-element/size", sp, c)+"#"+shapeOf(fd), fmt.Sprintf("%s plus a nil message in field %s (det=%v): proto.Size=%d len(Marshal)=%d bytes=%x; the reference codec over the same struct gives %d bytes %x", sp.Label(c), fd.Name(), det, sz, len(enc), clip(enc), len(ref), clip(ref)), vc)
+				break
+			}
 		}
 	}
 }
